@@ -92,6 +92,10 @@ def jobs(pid, tier):
         return [seq('C04')]
     if pid == 'C05':
         return [seq('C05')]
+    if pid == 'C13':
+        return [seq('C13')]
+    if pid == 'C14':
+        return [seq('C14')]
     if pid == 'C10':
         return [seq('C10')]
     if pid == 'C09':
